@@ -23,6 +23,11 @@ struct Walker {
     prints: Vec<(String, syn::Expr)>, // (arm, argument of self.p(..))
     func: String,
     arm: String,
+    /// private helper methods that are not part of the reviewed decomposition: a call is walked in place
+    helpers: BTreeMap<String, syn::ImplItemFn>,
+    /// parameter -> argument, while walking a helper in place
+    subst: BTreeMap<String, syn::Expr>,
+    depth: usize,
 }
 
 struct GroupIf {
@@ -156,7 +161,24 @@ impl Walker {
                     self.prints.push((self.arm.clone(), mc.args[0].clone()));
                 }
                 if mc.method == "unparse_expr" && sm::tsc(&mc.receiver) == "self" && mc.args.len() == 2 {
-                    self.sites.push(Site { func: self.func.clone(), arm: self.arm.clone(), child: sm::tsc(&mc.args[0]), level: Some(mc.args[1].clone()), line: sm::line(mc.method.span()) });
+                    let lvl = match sm::as_ident(&mc.args[1]).and_then(|i| self.subst.get(&i).cloned()) {
+                        Some(arg) => arg,
+                        None => mc.args[1].clone(),
+                    };
+                    self.sites.push(Site { func: self.func.clone(), arm: self.arm.clone(), child: sm::tsc(&mc.args[0]), level: Some(lvl), line: sm::line(mc.method.span()) });
+                }
+                if sm::tsc(&mc.receiver) == "self" && self.depth < 2 {
+                    if let Some(h) = self.helpers.get(&mc.method.to_string()).cloned() {
+                        let params: Vec<String> = h.sig.inputs.iter().filter_map(|a| if let syn::FnArg::Typed(pt) = a { Some(sm::tsc(&pt.pat)) } else { None }).collect();
+                        let saved = self.subst.clone();
+                        for (pn, a) in params.iter().zip(mc.args.iter()) {
+                            self.subst.insert(pn.clone(), a.clone());
+                        }
+                        self.depth += 1;
+                        self.stmts(&h.block.stmts);
+                        self.depth -= 1;
+                        self.subst = saved;
+                    }
                 }
                 self.expr(&mc.receiver);
                 for a in &mc.args {
@@ -305,7 +327,24 @@ pub fn run(cx: &mut Ctx) {
     }
 
     // ---- walk the unparser
-    let mut w = Walker { sites: vec![], groups: vec![], optables: BTreeMap::new(), lets: BTreeMap::new(), prints: vec![], func: String::new(), arm: String::new() };
+    let mut w = Walker { sites: vec![], groups: vec![], optables: BTreeMap::new(), lets: BTreeMap::new(), prints: vec![], func: String::new(), arm: String::new(), helpers: BTreeMap::new(), subst: BTreeMap::new(), depth: 0 };
+    // helper methods introduced after the review (not in refdata/private_fns.json) are walked at their call sites
+    let reviewed: BTreeSet<String> = tables::refdata(&cx.verif, "private_fns.json").ok().and_then(|v| v.get("ast/src/unparse.rs").and_then(|a| a.as_array().map(|a| a.iter().filter_map(|r| r.get(1).and_then(|n| n.as_str()).map(|n| n.to_string())).collect()))).unwrap_or_default();
+    if !reviewed.is_empty() {
+        for i in up.impls() {
+            if sm::self_ty_name(i) != "Unparser" {
+                continue;
+            }
+            for it in &i.items {
+                if let syn::ImplItem::Fn(f) = it {
+                    let n = f.sig.ident.to_string();
+                    if !reviewed.contains(&n) && !matches!(f.vis, syn::Visibility::Public(_)) {
+                        w.helpers.insert(n, f.clone());
+                    }
+                }
+            }
+        }
+    }
     let skip_fns: BTreeSet<&str> = ["unparse_formatted", "unparse_fstring_body", "unparse_fstring_elem", "unparse_fstring_str", "unparse_joined_str", "unparse_python_arguments", "new", "p", "p_id", "p_if", "p_delim", "write_fmt"].into_iter().collect();
     let mut arms_seen: Vec<String> = vec![];
     let mut wildcard = false;
@@ -316,7 +355,7 @@ pub fn run(cx: &mut Ctx) {
         for it in &i.items {
             let syn::ImplItem::Fn(f) = it else { continue };
             let fname = f.sig.ident.to_string();
-            if skip_fns.contains(fname.as_str()) {
+            if skip_fns.contains(fname.as_str()) || w.helpers.contains_key(&fname) {
                 continue;
             }
             w.func = fname.clone();
